@@ -14,6 +14,9 @@ const (
 	VerifEvSwap     = 2
 	VerifEvRelease  = 3
 	VerifEvConnFail = 4
+	// VerifEvIterStart is emitted at the top of fetchLoopIteration, outside svc.mtx; the callback may
+	// block (scheduler gate for schedule replay). Size/NResults are not read for this event.
+	VerifEvIterStart = 5
 )
 
 type VerifEvent struct {
@@ -33,6 +36,10 @@ var VerifTrace func(e VerifEvent)
 
 func (svc *InsertServiceV2) vtrace(ev int, req any, p *promise.Promise[uint32], ps []*promise.Promise[uint32], n int, err error) {
 	if VerifTrace == nil {
+		return
+	}
+	if ev == VerifEvIterStart {
+		VerifTrace(VerifEvent{Ev: ev, Svc: svc, Table: svc.insertRequest})
 		return
 	}
 	VerifTrace(VerifEvent{Ev: ev, Svc: svc, Table: svc.insertRequest, Req: req, Promise: p, Promises: ps,
